@@ -2,6 +2,8 @@
 
 Gates on the job path of each submitter (harness-side wrappers, nothing in pydra is edited):
 
+  before_submit    before the submitter creates its Submitter and calls it (Submitter.__call__ stamps
+                   its run start; holding a submitter back here makes it START while another is at work)
   before_acquire   entering SoftFileLock.acquire for the job's lock file <root>/<checksum>.lock
   lock_wait        first acquisition attempt that found the lock taken (the submitter now polls)
   after_acquire    SoftFileLock.acquire returned: the lock is held
@@ -39,7 +41,7 @@ from pathlib import Path
 
 from vlib.harness import HarnessError
 
-GATES = ["before_acquire", "lock_wait", "after_acquire", "after_check", "after_populate",
+GATES = ["before_submit", "before_acquire", "lock_wait", "after_acquire", "after_check", "after_populate",
          "body_entered", "body_left", "before_save", "after_save", "before_release", "after_release", "returned"]
 
 _local = threading.local()
@@ -67,7 +69,10 @@ def gate(name):
 class GateCtl:
     POLL = 0.002
 
-    def __init__(self, directory, me, n, constraints, escape_s=30.0, cache_root=None):
+    def __init__(self, directory, me, n, constraints, escape_s=30.0, cache_root=None, adopt="main"):
+        # adopt="main": THE job is the submitted one; adopt="node": THE job is the first
+        # non-workflow job run for this submitter (the node job shared by different workflows)
+        self.adopt_what = adopt
         self.dir = str(directory)
         self.me = int(me)
         self.n = int(n)
@@ -193,6 +198,11 @@ class GateCtl:
 
     # ---------------------------------------------------------------- which job is THE job
     def adopt(self, job):
+        if self.main_dir is None and self.adopt_what == "node":
+            from pydra.utils.general import is_workflow
+
+            if is_workflow(job.task):
+                return
         if self.main_dir is None:
             self.main_dir = os.path.realpath(str(job.cache_dir))
             self.main_lock = os.path.realpath(str(job.lockfile))
